@@ -20,7 +20,11 @@ pub enum Op {
     BinAssign { a: u8, b: u8, op: u8 },
     Clone { dst: u8, src: u8 },
     New { r: u8 },
+    /// `clear()` repeated MANY[k % 6] times on the same object (counters that wrap at 16 bits)
+    ClearMany { r: u8, k: u8 },
 }
+
+pub const MANY: [u32; 6] = [65535, 65536, 65537, 131071, 131072, 196608];
 
 #[derive(Clone, Debug, Hash, Serialize, Deserialize, PartialEq)]
 pub struct Case {
@@ -69,7 +73,16 @@ fn render(m: &BTreeSet<usize>, bits: usize) -> String {
     (0..bits).map(|i| if m.contains(&i) { '1' } else { '0' }).collect()
 }
 
+/// Every history is interpreted twice: once with the full set of observations after every operation, once "silently" - operations
+/// only, observations at the very end - because an observation may itself warm up or repair state (a cached count, a lazily cleared
+/// word) and hide what a caller who does not look in between would see.
 pub fn run<const N: usize>(c: &Case) -> CaseResult {
+    let st = run_mode::<N>(c, true)?;
+    run_mode::<N>(c, false).map_err(|v| vcore::Violation::new(format!("{}/without-intermediate-observations", v.sig), format!("(same history, observations only at the end) {}", v.msg)))?;
+    Ok(st)
+}
+
+fn run_mode<const N: usize>(c: &Case, watch: bool) -> CaseResult {
     let bits = N * 64;
     let mut st = CaseStats::default();
     st.size = c.ops.len() as u64;
@@ -107,6 +120,15 @@ pub fn run<const N: usize>(c: &Case) -> CaseResult {
                 let r = *r as usize % 3;
                 regs[r].clear();
                 ms[r].clear();
+                dst = r;
+            }
+            Op::ClearMany { r, k } => {
+                let r = *r as usize % 3;
+                for _ in 0..MANY[*k as usize % MANY.len()] {
+                    regs[r].clear();
+                }
+                ms[r].clear();
+                st.label("clear-repeated-65535-or-more-times");
                 dst = r;
             }
             Op::New { r } => {
@@ -182,6 +204,9 @@ pub fn run<const N: usize>(c: &Case) -> CaseResult {
                 dst = d;
             }
         }
+        if !watch {
+            continue;
+        }
         let b = observe(&regs[dst], &ms[dst], step, "after op", &touched)?;
         if b && N > 1 {
             st.label("iterated-with-word-boundary-element");
@@ -204,8 +229,22 @@ pub fn run<const N: usize>(c: &Case) -> CaseResult {
             vensure!(format!("{:?}", regs[dst]) == want, "debug", "step {} N={}: Debug = {:?}, expected {}", step, N, regs[dst], want);
         }
     }
+    if !watch {
+        for r in 0..3 {
+            vensure!(regs[r].count() == ms[r].len(), "count", "end N={}: count() of register {} = {}, set has {}", N, r, regs[r].count(), ms[r].len());
+            let nb = !regs[r].clone();
+            vensure!(nb.count() == bits - ms[r].len(), "count", "end N={}: count() of the complement of register {} = {}, expected {}", N, r, nb.count(), bits - ms[r].len());
+        }
+        for x in 0..3 {
+            for y in 0..3 {
+                vensure!((regs[x] == regs[y]) == (ms[x] == ms[y]), "eq", "end N={}: registers {} and {} compare {} but their sets are {}", N, x, y, regs[x] == regs[y], if ms[x] == ms[y] { "equal" } else { "different" });
+            }
+        }
+    }
     for r in 0..3 {
         observe(&regs[r], &ms[r], c.ops.len() + 1, "end", &[])?;
+        let want = render(&ms[r], bits);
+        vensure!(format!("{}", regs[r]) == want, "display", "end N={}: Display = {}, expected {}", N, regs[r], want);
     }
     Ok(st)
 }
@@ -237,6 +276,7 @@ pub fn op() -> impl Strategy<Value = Op> {
         12 => (r(), r(), r(), 0u8..3).prop_map(|(dst, a, b, op)| Op::Bin { dst, a, b, op }),
         12 => (r(), r(), 0u8..3).prop_map(|(a, b, op)| Op::BinAssign { a, b, op }),
         3 => (r(), r()).prop_map(|(dst, src)| Op::Clone { dst, src }),
+        1 => (r(), 0u8..6).prop_map(|(r, k)| Op::ClearMany { r, k }),
     ]
 }
 
